@@ -4,4 +4,4 @@
 From Coq Require Import Extraction ExtrOcamlBasic.
 From WF Require Import Check.Checker Check.Oci.
 Extraction Language OCaml.
-Extraction "../ocaml/wf_model.ml" step_line line_stats oci_step.
+Extraction "../ocaml/wf_model.ml" step_line line_stats oci_step init_fstate.
